@@ -33,7 +33,9 @@ GVal(b, k) == Col(rows[Idx(b, k)[1]], "g")
 AggVal(d, ix) ==
   \* the argument is the column d.arg, or (d.abs = 1) abs() of it: an aggregate over an EXPRESSION of the row
   LET raw(i) == Col(rows[ix[i]], d.arg)
-      xs == [i \in 1..Len(ix) |-> IF "abs" \in DOMAIN d /\ d.abs = 1 /\ raw(i).k = "num" /\ raw(i).v < 0 THEN NumV(-raw(i).v) ELSE raw(i)]
+      \* ... or (d.mul = k # 0) the column times a literal: sum(v * 2)
+      xs == [i \in 1..Len(ix) |-> IF "abs" \in DOMAIN d /\ d.abs = 1 /\ raw(i).k = "num" /\ raw(i).v < 0 THEN NumV(-raw(i).v)
+                                   ELSE IF "mul" \in DOMAIN d /\ d.mul # 0 /\ raw(i).k = "num" THEN NumV(raw(i).v * d.mul) ELSE raw(i)]
       u == Usable(xs) IN
   CASE d.fn = "count_star" -> Rat(Len(ix), 1)
     [] d.fn = "count" -> Rat(Len(NonNull(xs)), 1)
